@@ -184,6 +184,10 @@ def hyp_search(strategy, body, *, seed, max_examples, shrink=True, stateful_step
 def _worker(args):
     modname, spec = args
     import importlib
+    import logging
+
+    logging.getLogger("watchdog").setLevel(logging.CRITICAL + 1)
+    logging.getLogger("watchdog").addHandler(logging.NullHandler())
 
     try:
         mod = importlib.import_module(modname)
